@@ -179,6 +179,11 @@ class Program:
             m = Module(name, rel, sources[rel])  # SyntaxError propagates -> analysis error
             self.modules[name] = m
         for m in self.modules.values():
+            for local, imp in list(m.imports.items()):
+                # `from labella import renderer [as r]` imports a submodule
+                if imp[0] == "symbol" and imp[1] == PKG and imp[2] in self.modules:
+                    m.imports[local] = ("module", PKG + "." + imp[2])
+        for m in self.modules.values():
             self._index(m)
 
     # -- construction ------------------------------------------------------
